@@ -331,6 +331,11 @@ func c01Run(startup int, l pwLetter, cont []contLetter, pipelined bool) explore.
 		res.Fail("password-request", fmt.Sprintf("expected AuthenticationCleartextPassword, got R(%d)", ms[0].Auth))
 		return res
 	}
+	if c01Fault > 0 {
+		// one transport write of the exchange that follows fails once (nothing is written by it); later writes succeed
+		_, writes, _, _, _, _ := one.C.Snapshot()
+		one.C.SetFaults(memnet.Faults{WriteErrOnceAt: writes + c01Fault, Timeout: c01Fault%2 == 0})
+	}
 	// deliver the in-place message and the continuation
 	var after []byte
 	var contOut [][]byte
@@ -429,7 +434,7 @@ func c01Run(startup int, l pwLetter, cont []contLetter, pipelined bool) explore.
 			res.Fail("connection-not-closed", fmt.Sprintf("after a non-accepted authentication (%s) the server keeps the connection open (%s), reply %q", l.Name, st, kinds))
 		}
 		// (c) validator said reject => exactly one E of class 28
-		if l.Outcome == "reject" {
+		if l.Outcome == "reject" && c01Fault == 0 {
 			n28 := 0
 			for _, m := range msgs {
 				if m.Type == 'E' && strings.HasPrefix(m.Fields['C'], "28") {
@@ -507,8 +512,37 @@ func c01Run(startup int, l pwLetter, cont []contLetter, pipelined bool) explore.
 	return res
 }
 
+// c01Fault, when > 0, makes the k-th transport write after the password request fail once (see c01Run)
+var c01Fault int
+
 func c01Enumerate(tier string, emit explore.Emit) {
 	c01TLS(emit)
+	// a transient write failure while the rejection is being reported must not turn the rejection into a session:
+	// every not-accepting message in place of the password x the failing write (1st..4th after the password
+	// request, plain or timeout kind) x {pipelined, after quiescence}, followed by a Query
+	for _, l := range c01Letters() {
+		if l.Accept != "no" {
+			continue
+		}
+		for k := 1; k <= 4; k++ {
+			for _, pipe := range []bool{true, false} {
+				l, k, pipe := l, k, pipe
+				var cont []contLetter
+				if !l.EOF {
+					cont = c01Cont()[:1]
+				}
+				emit(explore.Case{Family: "auth-write-fault", Size: 3,
+					Desc: func() any {
+						return map[string]any{"in_place_of_password": l.Name, "failing_write_after_password_request": k, "timeout_kind": k%2 == 0, "pipelined_in_one_segment": pipe}
+					},
+					Run: func() explore.Result {
+						c01Fault = k
+						defer func() { c01Fault = 0 }()
+						return c01Run(0, l, cont, pipe)
+					}})
+			}
+		}
+	}
 	for _, send := range []string{"startup", "startup + query", "startup + wrong password + query"} {
 		send := send
 		emit(explore.Case{Family: "after-close", Size: 2, Desc: func() any { return map[string]any{"server_closed_then_client_sends": send} },
